@@ -249,6 +249,9 @@ class GensProp(props.BaseProp):
             if nodes != list(range(n)):
                 msgs.append("complete_graph(%d,%s): nodes %s are not exactly 0..n-1" % (n, c["dir"], nodes[:8]))
             want = [(i, j) for i in range(n) for j in range(n) if (i != j if c["dir"] else i < j)]
+            if 5004 in by and by[5004][1][0] != [int(bool(c["dir"])), 0]:
+                msgs.append("complete_graph(%d,%s) returns a graph of kind directed=%d multi_edges=%d"
+                            % (n, c["dir"], by[5004][1][0][0], by[5004][1][0][1]))
             if edges != want:
                 msgs.append("complete_graph(%d,%s): %d edges, expected one per %s pair (%d); missing %s extra %s"
                             % (n, c["dir"], len(edges), "ordered" if c["dir"] else "unordered", len(want),
@@ -280,6 +283,14 @@ class GensProp(props.BaseProp):
                     break
             if len(set(edges)) != len(edges):
                 msgs.append("%s: repeated pair" % what)
+            if 5004 in by and by[5004][1][0] != [int(bool(c["dir"])), 0]:
+                msgs.append("%s returns a graph of kind directed=%d multi_edges=%d"
+                            % (what, by[5004][1][0][0], by[5004][1][0][1]))
+            if k == "gnpnone" and 5005 in by and by[5005][1][0][0] == 1:
+                npairs = n * (n - 1) if c["dir"] else n * (n - 1) // 2
+                if npairs > 0 and (p * p + (1 - p) * (1 - p)) ** npairs < 1e-12:
+                    msgs.append("%s: two UNSEEDED calls returned the same %d edges (probability below 1e-12 for a "
+                                "fresh draw)" % (what, by[5005][1][0][1]))
             return msgs
         # statistics
         what = "fast_gnp_random_graph(%d, %r, %s, seeds %d..+%d)" % (n, p, c["dir"], c["seed0"], c["count"])
